@@ -11,6 +11,9 @@
          5 matrix                   -> the K rows of build_bit_matrix
          6 flavor_of [lg_k; c]      -> [determine_flavor code]      (u64 arithmetic of the repaired crate = unbounded)
          9 phase_of  [lg_k; c]      -> [determine_pseudo_phase]     (hook CpcSketch::verif_determine_pseudo_phase)
+        18 roundtrip                -> []   crate: sketch := deserialize(serialize(sketch)); model: unchanged, except
+                                            that the copy always owns a (possibly empty) table  (C11)
+        19 ser       [seed_hash]    -> the bytes of serialize()   (not produced by the model: masked; C12 oracle)
         30 big       [lg_k; full_cols; extra] -> [C; flavor; offset; validate; 1; C'; 1]
                      a fresh sketch receives full_cols complete columns 0.. and [extra] rows of the next column
                      (all pairs distinct, rows in a scrambled order), is serialized and deserialized; C' is the
@@ -29,13 +32,14 @@
         14 sk_validate [slot]              -> [0|1]
         15 sk_matrix [slot]                -> the K rows
         16 sk_roundtrip [slot]             -> []   crate: slot := deserialize(serialize(slot)); model: unchanged (C11)
+        17 sk_ser    [slot; seed_hash]     -> the bytes of serialize() (not produced by the model: masked; C12)
         20 un_new    [uslot; lg_k]         -> []
         21 un_update [uslot; slot]         -> [lg_k; num_coupons; kind]      kind 0 accumulator, 1 bit matrix
         22 un_state  [uslot]               -> [lg_k; kind] ++ (kind 0: sk_dump of the accumulator | kind 1: the K rows)
         23 un_result [uslot; slot]         -> sk_dump of to_sketch(), which is stored in [slot]
    kxp / HIP are not observed on this path: the accumulator's float registers depend on the order in which
    the source's hash-table slots are walked, and are dead once merge_flag is set. *)
-From DS Require Import Base.Prelude Base.FloatBits Model.Cpc Model.CpcUnion Model.CpcPhase.
+From DS Require Import Base.Prelude Base.FloatBits Model.Cpc Model.CpcUnion Model.CpcPhase Spec.CpcLayout.
 From Coq Require Import Floats FSets.FMapPositive.
 Open Scope Z_scope.
 
@@ -112,6 +116,7 @@ Definition step (cfg : list Z) (st : cstate) (o : zop) : cstate * list Z :=
           | Some s => match build_bit_matrix s with Ok m => (st, map Nz m) | _ => (st, PANIC) end
           | None => (st, PANIC) end
   | 16 => match lookup a0 (cs_sk st) with Some _ => (st, []) | None => (st, PANIC) end
+  | 17 => match lookup a0 (cs_sk st) with Some _ => (st, []) | None => (st, PANIC) end
   | 20 => match union_new (zN a1) with Ok u => (set_un st a0 u, []) | _ => (st, PANIC) end
   | 21 => match lookup a0 (cs_un st), lookup a1 (cs_sk st) with
           | Some u, Some s =>
@@ -136,6 +141,8 @@ Definition step (cfg : list Z) (st : cstate) (o : zop) : cstate * list Z :=
       | 4 => match cpc_validate s with Ok b => (st, [zbool b]) | _ => (set_cur st None, PANIC) end
       | 5 => match build_bit_matrix s with Ok m => (st, map Nz m) | _ => (set_cur st None, PANIC) end
       | 8 => (st, [if c_merge s then (-1) else bits_of_float (c_hip s)])
+      | 18 => (set_cur st (Some (match c_table s with None => set_table s (Some []) | Some _ => s end)), [])
+      | 19 => (st, [])
       | _ => (st, PANIC)
       end
     end
@@ -225,7 +232,7 @@ Definition dump_ok (lgk : N) (st : ospec) (ob : list Z) : bool :=
   summary_ok lgk st (firstn 4 (skipn 1 ob))
   && (zN (zat ob 0) =? lgk)%N
   && (zat ob 5 =? 0)                                          (* never merged *)
-  && (zat ob 8 =? (if (c =? 0)%N then 0 else 1))              (* table allocated iff non-empty *)
+  && ((c =? 0)%N || (zat ob 8 =? 1))                          (* a non-empty sketch owns a table *)
   && (Z.of_nat nwin =? (if windowed then Nz k else 0))             (* window present iff flavor > Sparse *)
   && (Z.of_nat (length tab) =? ntab)
   && win_ok st off 0 win
@@ -267,6 +274,47 @@ Fixpoint prop_from (lgk : N) (st : ospec) (ops : list zop) (obs : list (list Z))
 
 Definition prop_ok (c : case) : bool :=
   prop_from (zN (nth 0 (c_cfg c) 0)) o_empty (c_ops c) (c_obs c).
+
+(* ------------------------------------------------------------------------------------------------
+   Oracle of C12: the crate's serialize() output, decoded by the independent layout decoder
+   (Spec/CpcLayout.v: fields located from the format's fixed preamble-ints table), must describe the Spec
+   state: lg_k, coupon count, a sound first interesting column, the HIP registers last observed, a window
+   stream iff the flavor is Pinned or Sliding, a surprising-value stream iff there are surprising values to
+   store, their number, and stream lengths within the deterministic bounds. *)
+Definition ceil_div (a b : N) : N := ((a + b - 1) / b)%N.
+
+(* [regs]: Some (kxp, hip) = the HIP registers the image must carry; None = the image of a merged sketch
+   (no registers) when [merged], any registers otherwise *)
+Definition image_ok_gen (lgk : N) (st : ospec) (merged : bool) (regs : option (Z * Z)) (seed_hash : N) (bytes : list Z) : bool :=
+  match spec_decode (map zN bytes) with
+  | None => false
+  | Some a =>
+      let k := (2 ^ lgk)%N in
+      let c := o_c st in
+      let f := spec_flavor lgk c in
+      let off := spec_offset lgk c in
+      let nsurp := if (f <=? 2)%N then c else spec_surprises st k off in
+      forallb (fun b => (0 <=? b) && (b <? 256)) bytes
+      && (ca_lgk a =? lgk)%N && (ca_num a =? c)%N && (ca_seedhash a =? seed_hash)%N
+      && (ca_fic a <=? off)%N && cols_full_below st k (ca_fic a)
+      && match ca_hip a, regs with
+         | Some (x, y), Some (kxp, hip) => if (c =? 0)%N then true else (Nz x =? kxp) && (Nz y =? hip)
+         | Some _, None => negb merged || (c =? 0)%N        (* an empty union result is a fresh, unmerged sketch *)
+         | None, Some _ => false                           (* sketches built by updates are never merged *)
+         | None, None => merged
+         end
+      && match ca_win a with
+         | Some ww => (3 <=? f)%N && (ceil_div (k + 11) 32 <=? lenN ww)%N && (lenN ww <=? ceil_div (12 * k + 11) 32)%N
+         | None => (f <=? 2)%N
+         end
+      && match ca_sv a with
+         | Some (n, sw) => (1 <=? nsurp)%N && (n =? nsurp)%N && (1 <=? lenN sw)%N
+         | None => (nsurp =? 0)%N
+         end
+  end.
+
+Definition image_ok (lgk : N) (st : ospec) (kxp hip : Z) (seed_hash : N) (bytes : list Z) : bool :=
+  image_ok_gen lgk st false (Some (kxp, hip)) seed_hash bytes.
 
 (* ------------------------------------------------------------------------------------------------
    Property oracle of C06: the union result is the OR of the inputs' matrices, rows folded modulo the
@@ -350,6 +398,9 @@ Fixpoint union_from (sks : list (Z * sspec)) (uns : list (Z * uspec)) (ops : lis
       | 15 => match lookup a0 sks with
               | Some ss => (Z.of_nat (length ob) =? Nz (2 ^ ss_lgk ss)) && rows_ok (ss_o ss) 0 ob && union_from sks uns r obr
               | None => false end
+      | 17 => match lookup a0 sks with
+              | Some ss => image_ok_gen (ss_lgk ss) (ss_o ss) (ss_merged ss) None (zN a1) ob && union_from sks uns r obr
+              | None => false end
       | 20 => ok && union_from sks (store a0 (mkUS (zN a1) (PositiveMap.empty N)) uns) r obr
       | 21 => match lookup a0 uns, lookup a1 sks with
               | Some u, Some ss =>
@@ -408,4 +459,22 @@ Fixpoint extremes_from (ops : list zop) (obs : list (list Z)) : bool :=
 
 Definition extremes_ok (c : case) : bool := extremes_from (c_ops c) (c_obs c).
 
-Definition oracles : list (Z * (case -> bool)) := [(0, prop_ok); (1, union_ok); (2, extremes_ok)].
+Fixpoint layout_from (lgk : N) (st : ospec) (kxp hip : Z) (ops : list zop) (obs : list (list Z)) : bool :=
+  match ops, obs with
+  | (code, a) :: r, ob :: obr =>
+      match code with
+      | 0 => layout_from lgk o_empty 0 0 r obr
+      | 1 => let '(row, col) := spec_pair lgk (zN (nth 1 a 0)) (zN (nth 2 a 0)) in
+             layout_from lgk (o_add st row col) (zat ob 4) (zat ob 5) r obr
+      | 2 => let rc := zN (nth 0 a 0) in
+             layout_from lgk (o_add st (rc / 64)%N (rc mod 64)%N) (zat ob 4) (zat ob 5) r obr
+      | 19 => image_ok lgk st kxp hip (zN (nth 0 a 0)) ob && layout_from lgk st kxp hip r obr
+      | _ => layout_from lgk st kxp hip r obr
+      end
+  | _, _ => true
+  end.
+
+Definition layout_ok (c : case) : bool :=
+  layout_from (zN (nth 0 (c_cfg c) 0)) o_empty 0 0 (c_ops c) (c_obs c).
+
+Definition oracles : list (Z * (case -> bool)) := [(0, prop_ok); (1, union_ok); (2, extremes_ok); (3, layout_ok)].
